@@ -49,6 +49,11 @@ def _programs(tier):
             progs['in_%s_%s' % (how, reg_how)] = {'steps': [{'reg': [['k0', 0, 'fut', reg_how], ['k1', 1, 'child', 'call']], 'ret': None}, {'reg': [], 'ret': None},
                                                          {'reg': [['k2', 2, 'fut', reg_how]], 'ret': None}, {'reg': [], 'ret': 'end'}],
                                                'wrap': [how, None, how, None]}
+    # one awaited item handed to the context under two keys (by the same step, both ways of registering)
+    progs['twokeys_ret'] = {'steps': [{'reg': [['k', 0, 'fut', 'ret'], ['again', 0, 'fut', 'ret'], ['c', 1, 'child', 'ret'], ['c2', 1, 'oldchild', 'ret']], 'ret': None},
+                                      {'reg': [], 'ret': None}]}
+    progs['twokeys_call'] = {'steps': [{'reg': [['k', 0, 'fut', 'call'], ['again', 0, 'fut', 'call'], ['c', 1, 'child', 'call'], ['c2', 1, 'oldchild', 'ret']], 'ret': None},
+                                       {'reg': [], 'ret': None}]}
     progs['samekey'] = {'steps': [{'reg': [['k', 0, 'fut', 'call'], ['k', 1, 'fut', 'ret']], 'ret': None}, {'reg': [], 'ret': None}]}
     return progs
 
